@@ -4,5 +4,8 @@ set -e
 cd "$(dirname "$0")"
 export CARGO_NET_OFFLINE=true
 ( cd lean && lake build SF sfdrv SF.All )
+# translator tie: regenerate SF/Gen from /repo/src and check every SF.GenEq.<View>.tie (about 3 minutes from clean)
+python3 tools/rs2lean.py > /dev/null
+( cd lean && lake build $(ls SF/GenEq/*.lean | sed 's/\.lean$//; s/\//./g') )
 ( cd harness && { [ -f Cargo.lock ] || cp /repo/Cargo.lock Cargo.lock; } && cargo build --offline --release && cargo build --offline --profile relassert )
 echo "setup done"
